@@ -37,9 +37,9 @@ PROPERTY AbsentTypeNoEffect
 TRACE_CFG = "SPECIFICATION Spec\n"
 
 CONSTS = {
-    'quick': {'Types': '{"a","b"}', 'GhostTypes': '{"z"}', 'MaxC': '3', 'MaxAbove': '1',
+    'quick': {'Types': '{"a","Bb"}', 'GhostTypes': '{"z"}', 'MaxC': '3', 'MaxAbove': '1',
               'Limits': '{-1,0,1,2,5}', 'MaxSpecs': '2'},
-    'thorough': {'Types': '{"a","b","general"}', 'GhostTypes': '{"z"}', 'MaxC': '3', 'MaxAbove': '1',
+    'thorough': {'Types': '{"a","Bb","general"}', 'GhostTypes': '{"z"}', 'MaxC': '3', 'MaxAbove': '1',
                  'Limits': '{-1,0,1,2,5}', 'MaxSpecs': '3'},
 }
 
@@ -151,7 +151,8 @@ def classify(counts, above, specs):
 
 def random_case(rng):
     ntypes = rng.randint(1, 6)
-    types = ['t%d' % i for i in range(ntypes)]
+    # warning types are case-sensitive names ('DSSP-version' is a shipped one); 'Tx' and 'tx' are different types
+    types = ['t0', 'DSSP-version', 'Tx', 'tx', 'unknown-input', 'pdb-alternate'][:ntypes]
     if rng.random() < 0.4:
         types[0] = 'general'
     counts = {t: rng.choice([0, 1, 2, 3, 7, 20, 60]) for t in types}
